@@ -105,8 +105,36 @@ def run(ctx):
         if g["agg"].get("completed", 0) > 0:
             with_cycles += 1
             distinct.add((name, job["id"].rsplit("-", 1)[-1]))
+    asan = {"runs": 0, "reports": 0}
+    if not ctx.quick:
+        # the same kernels with REAL frees (quarantine off) on the AddressSanitizer build: a use of a swept object is a
+        # heap-use-after-free there even if the bytes still look right
+        ar = vlib.Rng(ctx.seed * 31 + 6)
+        ajobs = []
+        for name, src in KERNELS.items():
+            runs = [{"budget": {"k": 64}, "max_steps": 400000}]
+            for i in range(10):
+                runs.append({"budget": {"k": 64}, "max_steps": 400000,
+                             "gc": {"plan": "random", "seed": ar.next() >> 1, "pm": ar.choice([20, 80, 300, 1000]), "max": ar.choice([1, 8, 64, 100000])}})
+            for i in range(6):
+                st = ar.range(3, 200)
+                runs.append({"budget": {"k": 64}, "max_steps": 400000,
+                             "gc": {"plan": "scripted", "start": [st + 37 * j for j in range(60)], "mark": ar.choice([1, 2, "max"]), "sweep": ar.choice([1, "max"])}})
+            ajobs.append({"id": "asan-" + name, "files": {"main.abra": src}, "runs": runs})
+        ares, asan["runs"], asan["reports"] = vlib.asan_slice(ctx, ajobs, "asan-kernel")
+        # without the quarantine the outcome must still equal the first (default pacing) run
+        for job in ajobs:
+            rr = ares.get(job["id"], {}).get("runs") or []
+            if rr and rr[0].get("status") in ("done", "error"):
+                for spec, o in zip(job["runs"][1:], rr[1:]):
+                    if (o.get("status"), o.get("output"), o.get("err")) != (rr[0].get("status"), rr[0].get("output"), rr[0].get("err")):
+                        sig = "%s %s asan-build differs-from-default-pacing" % (PROP, job["id"])
+                        ctx.direct.append((sig, "under %s (real frees) the run gave %r / %r, under the VM's own pacing %r" % (
+                            spec.get("gc"), o.get("status"), (o.get("output") or "")[-120:], (rr[0].get("output") or "")[-120:]), dict(job, asan=True)))
+                        break
     ctx.coverage(
-        evaluations=evals,
+        asan_build=asan,
+        evaluations=evals + asan["runs"],
         distinct_nontrivial=len(distinct),
         rule="evaluation = one execution of a program under one collection plan (quarantine + reachability monitors on); "
              "distinct = (program, schedule family) pairs in which at least one collection cycle completed; "
